@@ -1,3 +1,4 @@
 pub mod kwprogs;
+pub mod sched;
 pub mod soup;
 pub mod svgen;
